@@ -93,6 +93,11 @@ add("C17", "runtime monitor: schedule and identity checker over time-stamped, de
     "A 20 s wall-clock watchdog on the lock-step stepping ends a run as inconclusive; the application's fixed 1 s interval is varied through its public attribute.",
     "DESIGN.md 3/C17")
 
+add("C18", "runtime monitor: consistency predicates on hooked fields + a reference acceptor of the clause 5.4.2 timing rules after every event; closed loops of real VRU services through the real VAM coder",
+    "Exploration: every event sequence to depth 4 (quick) / 5 (thorough) over 19 events (role on/off, try-create with and without nearby VRUs, initiate-join, cancel, leave, break-up, received VAMs: plain / cluster info of the target or another cluster / join towards the own cluster / break-up announcement from the leader with an ordinary or the CPM reason / plain leader VAM, update with clock steps 50 ms, 500 ms, 1 s, 3.1 s) from three start situations, plus random walks of 40-200 events; after every event: leader iff owned cluster with id 1..255 and cardinality >= 1, passive iff joined cluster + known leader + armed leader-lost timer, transmission suppressed only while passive/idle, and state / should_transmit / operation-container kind and ids compared with the acceptor (join notification 3 s, waiting 0.5 s, leave notification 1 s, break-up warning 3 s, leader lost after 2 s, break-up announcement). Closed loops: 4-5 real VRUAwarenessService stacks exchange real encoded VAMs; a leader emerges, advertises, a member joins (must end PASSIVE, leader cardinality grows), then the leader falls silent or breaks up and the member must be stand-alone and transmitting again.",
+    "Time-driven transitions are expected at update() calls ('by the next update' literally); the acceptor compares public observables only.",
+    "DESIGN.md 3/C18")
+
 NOT_YET = "check not built yet (work in progress; runtime monitor planned in DESIGN.md section 3)"
 
 def main():
